@@ -50,7 +50,7 @@ func (f *Formatter) formatConditionLines(expr ast.Expression) ([]string, bool, b
 			lines = append(lines, ")")
 			return lines, true, true
 		}
-		inner := strings.TrimSpace(f.formatExpression(t.Right).String())
+		inner := f.formatExpression(t.Right).TrimmedString()
 		return []string{"(" + inner + ")"}, false, false
 	case *ast.PrefixExpression:
 		// Handle negation and other prefix operators containing compound conditions.
@@ -99,7 +99,7 @@ func (f *Formatter) formatConditionLines(expr ast.Expression) ([]string, bool, b
 		return lines, true, preserve
 	}
 
-	line := strings.TrimSpace(f.formatExpression(expr).String())
+	line := f.formatExpression(expr).TrimmedString()
 	return []string{line}, false, false
 }
 
